@@ -254,6 +254,11 @@ class Program:
     def func(self, qual):
         f = self.functions.get(qual)
         if f is None:
+            last = qual.split('.')[-1]
+            if '<locals>' in qual or (last.startswith('_') and not last.startswith('__')):
+                # a nested or private helper that was inlined, renamed or turned into a method: the rule that is anchored in it
+                # gives no verdict (undecided); only a vanished PUBLIC function / class / module is an analysis error
+                raise AnchorMissing('helper function %s not found' % qual)
             raise ConstructMissing('function %s not found' % qual)
         return f
 
